@@ -24,7 +24,7 @@ def check(ctx, run):
     run.not_decided.append("the exact message text for every operand pair; termination of the operand rendering helpers on arbitrary bytes (C13)")
     run.rule("R1", "fixed buffer: under the invariant (write_limit_ <= LEN-1, positions_filled_ <= LEN-1) established by every writer of the two fields, add() folded over the boundary lattice of (limit, fill, vsnprintf result) never hands vsnprintf a window outside [0, LEN) and re-establishes the invariant", floor=150, exhaustive=True)
     run.rule("R2", "footer reservation: the space reserved when a leak report starts covers the worst-case text appended after the limit is reset (too-many notice + total line + malloc warning); the notice is printed iff the capacity was reached before the reset", floor=5)
-    run.rule("R3", "first-difference scans: every loop that advances while two sequences agree also stops at the end of a sequence, unless every construction site of the failure is dominated by a comparison != 0 of the very same operands (frozen exceptions)", floor=7)
+    run.rule("R3", "first-difference scans: every loop that advances while two sequences agree also stops at the end of a sequence, unless every construction site of the failure is dominated by a comparison != 0 of the very same operands (frozen exceptions); the scans are also exercised by the R4 folds on operand pairs whose printable renderings coincide", floor=4)
     run.rule("R4", "content: expected before actual in the but-was text; string kinds render through the printable form; the reported position is the raw index and the marker offset the printable one; the padding covers half the window", floor=8)
 
     LEN = [e["v"] for en in prog.enums.values() for e in en["enumerators"] if e["name"] == "SIMPLE_STRING_BUFFER_LEN"]
@@ -98,8 +98,15 @@ def check(ctx, run):
         ws = {f.qn for f, n in field_writers(prog, SSB + "::" + fld)}
         run.ob("R1", "%s is written only by %s" % (fld, sorted(x.split("::")[-1] for x in allowed)), "include/CppUTest/MemoryLeakDetector.h:%s::%s" % (SSB, fld), ws <= allowed, witness=sorted(ws))
     rc = prog.fn(SSB + "::reachedItsCapacity")
-    rets = [render(rc, rc.node(n.get("value"))) for n in rc.walk() if n["k"] == "ReturnStmt"]
-    run.ob("R1", "reachedItsCapacity compares fill with limit", rc.site, rets in (["(positions_filled_ >= write_limit_)"], ["(write_limit_ <= positions_filled_)"]), witness=rets)
+    okc = True
+    for pf_, wl_ in ((0, 5), (4, 5), (5, 5), (6, 5), (0, 0)):
+        ev = Evaluator(prog, rc, env={"positions_filled_": pf_, "write_limit_": wl_})
+        try:
+            ev.run_blocks(rc.entry, max_steps=100)
+            okc = okc and getattr(ev, "ret", None) == (1 if pf_ >= wl_ else 0)
+        except Unknown:
+            okc = False
+    run.ob("R1", "reachedItsCapacity folded: true exactly when the fill has reached the limit", rc.site, okc)
 
     # ---------------- R2 ----------------------------------------------------
     st = prog.fn(OSB + "::startMemoryLeakReporting")
@@ -260,43 +267,133 @@ def check(ctx, run):
             else:
                 run.ob("R3", inst, f.site, False, witness=render(f, cond),
                        what="the scan advances while the sequences agree and has no end test: when the renderings coincide it reads past both strings")
-    if nscan < 7:
-        run.broke("only %d first-difference scans found in TestFailure.cpp (7 confirmed by hand)" % nscan)
+    if nscan < 4:
+        run.broke("only %d first-difference scans found in TestFailure.cpp (7 on the confirmed tree; 4 classes use them)" % nscan)
 
     # ---------------- R4 ----------------------------------------------------
+    def printable(t):
+        out = ""
+        for ch in t:
+            o = ord(ch)
+            if 7 <= o <= 13:
+                out += "\\" + "abtnvfr"[o - 7]
+            elif o < 32 or o == 127:
+                out += "\\x%02X " % o
+            else:
+                out += ch
+        return out
+
+    def first_diff(a_, b_, key=lambda c: c):
+        i = 0
+        while i < len(a_) and i < len(b_) and key(a_[i]) == key(b_[i]):
+            i += 1
+        return i
+
+    def fold_failure(f, expected, actual, binary=False):
+        """fold a failure constructor on two operands; returns the recorded (butWas args, differenceAtPos args)"""
+        log = {"butwas": [], "diff": []}
+        env = {}
+        ptr_text = {}
+        pe, pa = None, None
+        for q in f.params:
+            if q["name"].lower().startswith("expected"):
+                pe = q
+            elif q["name"].lower().startswith("actual"):
+                pa = q
+        if pe is None or pa is None:
+            # positional: (test, file, line, expected, actual, ...)
+            pe, pa = f.params[3], f.params[4]
+        for q, val, base in ((pe, expected, "E"), (pa, actual, "A")):
+            if "SimpleString" in q["ct"]:
+                env[q["name"]] = ("str", val)
+            else:
+                env[q["name"]] = ("ptr", base, 0)
+                ptr_text[base] = val
+                for i_, ch in enumerate(val):
+                    o = ch if isinstance(ch, int) else ord(ch)
+                    env["%s[%d]" % (base, i_)] = o - 256 if (o > 127 and not binary) else o
+                if not binary:
+                    env["%s[%d]" % (base, len(val))] = 0
+        for q in f.params:
+            env.setdefault(q["name"], len(expected) if q["ct"] == "unsigned long" and binary and q["name"] == "size" else 7)
+
+        def text_of(v):
+            if isinstance(v, tuple) and v[0] == "str":
+                return v[1]
+            if isinstance(v, tuple) and v[0] == "ptr":
+                return ptr_text[v[1]][v[2]:]
+            return None
+
+        def pr(v, *rest):
+            t = text_of(v)
+            return None if t is None else ("str", printable(t))
+
+        def hexs(v, n_=None, *rest):
+            t = text_of(v)
+            return None if t is None else ("str", " ".join("%02X" % x for x in t))
+        ev = Evaluator(prog, f, env=env, calls=string_hooks({
+            "PrintableStringFromOrNull": pr, "PrintableStringFrom": pr, "StringFromBinaryOrNull": hexs, "StringFromBinary": hexs,
+            "TestFailure::createButWasString": lambda *a_: (log["butwas"].append(a_[-2:]), ("str", ""))[1],
+            "TestFailure::createDifferenceAtPosString": lambda *a_: (log["diff"].append(a_[-3:]), ("str", ""))[1],
+            "TestFailure::createUserText": lambda *a_: ("str", "")}))
+        ev.pass_object = True
+        ev.inline = {"SimpleString::ToLower", "SimpleString::isUpper"}
+        ev.run_blocks(f.entry, max_steps=4000)
+        return log
+    CASES = [("abc", "abd"), ("a\nb", "a\nc"), ("\x01x", "\x01y"), ("abc", "ab"), ("", "a"), ("x\ty\x7fz", "x\ty\x7fw"), ("same\n", "same\r"),
+             ("\n", "\\n"), ("a\\tb", "a\tb")]      # different operands whose printable renderings coincide: the printable scan must stop at the NUL
+    for cls, nocase in (("CheckEqualFailure", False), ("StringEqualFailure", False), ("StringEqualNoCaseFailure", True)):
+        for f in [g for g in prog.methods_of(cls) if g.kind == "ctor"]:
+            run.analysed(f)
+            bad, badorder, badprint = None, None, None
+            cases = CASES + ([("ABc", "abD"), ("Q\nr", "q\nS")] if nocase else [])
+            try:
+                for e_, a_ in cases:
+                    log = fold_failure(f, e_, a_)
+                    key = (lambda c: c.lower()) if nocase else (lambda c: c)
+                    want = (("str", printable(a_)), first_diff(printable(a_), printable(e_), key), first_diff(a_, e_, key))
+                    if log["diff"] != [want] and bad is None:
+                        bad = "expected %r, actual %r: difference reported as %s, expected (actual rendering, offset %d in the rendering, position %d in the operands)" % (e_, a_, log["diff"], want[1], want[2])
+                    if log["butwas"] != [(("str", printable(e_)), ("str", printable(a_)))] and badorder is None:
+                        badorder = "expected %r, actual %r: 'expected <..> but was <..>' built from %s" % (e_, a_, log["butwas"])
+            except Unknown as u:
+                run.broke("C14.R4: %s cannot be folded: %s" % (f.qn, u))
+                continue
+            run.ob("R4", "%s shows expected before actual, both rendered printable (folded)" % f.cls, f.site, badorder is None, witness=badorder or "%d operand pairs" % len(cases),
+                   what="" if badorder is None else "the message would show the operands swapped or unrendered: " + badorder)
+            run.ob("R4", "%s: marker offset is the printable index, reported position the raw index (folded on %d operand pairs incl. control characters)" % (f.cls, len(cases)), f.site, bad is None, witness=bad or "ok",
+                   what="" if bad is None else "the position printed is not the first index at which the operands differ: " + bad)
+    for f in [g for g in prog.methods_of("BinaryEqualFailure") if g.kind == "ctor"]:
+        run.analysed(f)
+        bad, badorder = None, None
+        try:
+            for e_, a_ in (([1, 2, 3], [1, 2, 4]), ([0, 0], [0, 9]), ([255], [0]), ([7, 8, 9, 10], [7, 0, 9, 10])):
+                log = fold_failure(f, e_, a_, binary=True)
+                pos = first_diff(a_, e_)
+                hx = lambda t: ("str", " ".join("%02X" % x for x in t))
+                if log["diff"] != [(hx(a_), pos * 3 + 1, pos)] and bad is None:
+                    bad = "expected %s, actual %s: difference reported as %s, expected offset %d (3 characters per byte) and position %d" % (e_, a_, log["diff"], pos * 3 + 1, pos)
+                if log["butwas"] != [(hx(e_), hx(a_))] and badorder is None:
+                    badorder = "built from %s" % (log["butwas"],)
+        except Unknown as u:
+            run.broke("C14.R4: %s cannot be folded: %s" % (f.qn, u))
+            continue
+        run.ob("R4", "BinaryEqualFailure shows expected before actual (folded)", f.site, badorder is None, witness=badorder or "4 pairs", what="" if badorder is None else "the message would show the operands swapped: " + badorder)
+        run.ob("R4", "BinaryEqualFailure: marker offset is 3 * index + 1 into the hex rendering, reported position the byte index (folded)", f.site, bad is None, witness=bad or "4 pairs",
+               what="" if bad is None else "the position printed is not the first index at which the operands differ: " + bad)
     for f in prog.functions.values():
-        if f.file != "src/CppUTest/TestFailure.cpp" or f.kind != "ctor":
+        if f.file != "src/CppUTest/TestFailure.cpp" or f.kind != "ctor" or f.cls in ("CheckEqualFailure", "StringEqualFailure", "StringEqualNoCaseFailure", "BinaryEqualFailure"):
             continue
         for c in f.calls():
             nm = prog.callee_name(f, c) or ""
             if nm == "TestFailure::createButWasString":
-                a = [render(f, x, keep_explicit_casts=False) for x in f.args(c)]
-                ok = ("xpected" in a[0] or a[0].startswith("e")) and ("ctual" in a[1] or a[1].startswith("a")) and "ctual" not in a[0] and "xpected" not in a[1]
+                a = [rx(f, x) for x in f.args(c)]
+                pnames = [q["name"] for q in f.params]
+                ie = [i for i, q in enumerate(pnames) if re.search(r"\b%s\b" % re.escape(q), a[0]) and q.lower().startswith("expected")]
+                ia = [i for i, q in enumerate(pnames) if re.search(r"\b%s\b" % re.escape(q), a[1]) and q.lower().startswith("actual")]
+                ok = bool(ie) and bool(ia) and not any(re.search(r"\b%s\b" % re.escape(q), a[0]) for q in pnames if q.lower().startswith("actual")) \
+                    and not any(re.search(r"\b%s\b" % re.escape(q), a[1]) for q in pnames if q.lower().startswith("expected"))
                 run.ob("R4", "%s shows expected before actual" % f.cls, f.site, ok, witness=a, what="" if ok else "the message would show the operands swapped")
-            if nm == "TestFailure::createDifferenceAtPosString":
-                a = [render(f, x, keep_explicit_casts=False) for x in f.args(c)]
-                # which scan variable indexes which strings
-                scans = {}
-                for lp in [n for n in f.walk() if n["k"] == "ForStmt"]:
-                    ctext = render(f, f.node(lp.get("cond")), keep_explicit_casts=False) if lp.get("cond") is not None else ""
-                    ini = f.node(lp.get("init"))
-                    var = None
-                    if ini is not None:
-                        m = re.match(r"^\((\w+) = 0\)$", render(f, ini))
-                        var = m.group(1) if m else None
-                    if var:
-                        scans[var] = "printable" if "rintable" in ctext else "raw"
-                if f.cls == "BinaryEqualFailure":
-                    ok = len(a) == 3 and re.match(r"^\(\((\w+) \* 3\) \+ 1\)$", a[1]) is not None and a[2] in scans and a[2] in a[1]
-                else:
-                    ok = len(a) == 3 and scans.get(a[1]) == "printable" and scans.get(a[2]) == "raw" and "rintable" in a[0] and "ctual" in a[0]
-                run.ob("R4", "%s: marker offset is the printable index, reported position the raw index" % f.cls, f.site, ok, witness={"args": a, "scans": scans},
-                       what="" if ok else "the position printed is not the first index at which the operands differ")
-    for cls in ("StringEqualFailure", "StringEqualNoCaseFailure", "CheckEqualFailure"):
-        for f in [g for g in prog.methods_of(cls) if g.kind == "ctor"]:
-            ini = {k: render(f, v) for k, v in local_inits(f).items()}
-            ok = all(k in ini and ini[k].startswith("PrintableStringFromOrNull(") for k in ("printableExpected", "printableActual"))
-            run.ob("R4", "%s renders both operands through PrintableStringFromOrNull" % cls, f.site, ok, witness=ini)
     dp = prog.fn("TestFailure::createDifferenceAtPosString")
     run.analysed(dp)
     ini = {k: render(dp, v) for k, v in local_inits(dp).items()}
